@@ -221,6 +221,12 @@ def triage_failures(ctx, res, kit, fails):
             if native.failed(o_dev) or native.failed(o_rel):
                 reproduced = (ks, js, o_dev, o_rel, line)
                 break
+            if outcome == "violation" and "without any syntax diagnostic" in site:
+                st = o_dev.get("steps", [])
+                E = kit.K["ERROR"]
+                if not any(x[0] == "error" for x in st) and any(x[0] in ("enter", "token") and x[1] == E for x in st):
+                    reproduced = (ks, js, {"panic": "tree contains an ERROR node/token and no diagnostic"}, o_rel, line)
+                    break
         toks = names_of(kit, ex0[3])
         if reproduced is None:
             res.inconclusive.append(f"counterexample does not reproduce natively ({info['count']} paths): {site} e.g. {toks} joint={ex0[4]}")
@@ -254,6 +260,139 @@ def _short(o):
         if k in o:
             return {k: o[k] if not isinstance(o[k], str) else o[k][:160]}
     return "returns"
+
+
+# ---------------------------------------------------------------------------------------------------------------
+# prefix deepening: every prefix of every statement skeleton of the reference grammar, followed by k symbolic tokens
+class PrefixFamily:
+    def __init__(self, known, seed, k):
+        self.kit = ParserKit()
+        self.known = known; self.seed = seed; self.k = k
+        self.ex = Exec(self.kit.prog, self.kit.models, max_steps=STEP_BASE * 40)
+
+    def harness(self, task):
+        return PrefixHarness(self, task)
+
+    def exec_for(self, h):
+        return self.ex
+
+
+class PrefixHarness:
+    """task = (tokens, i, mode): mode 'trunc' = tokens[:i] alone; 'subst' = token i replaced by a symbolic token;
+    'insert' = k symbolic tokens inserted before token i"""
+    def __init__(self, fam, task):
+        self.fam = fam; self.base, self.i, self.mode = list(task[0]), task[1], task[2]
+
+    def run(self, ex):
+        kit = self.fam.kit
+        k = 0 if self.mode == "trunc" else (1 if self.mode == "subst" else self.fam.k)
+        self.sym = kit.sym_tokens(k, "s")
+        kit.constrain_alphabet(ex, self.sym)
+        if self.mode == "trunc":
+            toks = self.base[:self.i]
+        elif self.mode == "subst":
+            toks = self.base[:self.i] + list(self.sym) + self.base[self.i + 1:]
+        else:
+            toks = self.base[:self.i] + list(self.sym) + self.base[self.i:]
+        self.toks = toks
+        nw = len(toks) // 64 + 1
+        jws = [SV(z3.BitVec(f"joint{w}", 64), 64) for w in range(nw)]
+        from .interp import VecV, Ref
+        out = ex.call("TopEntryPoint::parse", [Ref([0], 0), Ref([[VecV(list(toks)), VecV(jws)]], 0)])
+        steps = kit.decode(out)
+        if len(steps) > EVENTS_PER_TOKEN * (len(toks) + 1):
+            raise StepLimit(f"event list grew to {len(steps)} entries for {len(toks)} tokens")
+        # C12(b) on the same path: a tree without diagnostics has no ERROR node and provably no ERROR token
+        if not any(s[0] == "error" for s in steps):
+            K = kit.K
+            conds = []
+            for s in steps:
+                if s[0] == "enter" and s[1] == K["ERROR"]:
+                    raise Violation("ERROR node in a tree without any syntax diagnostic")
+                if s[0] == "token":
+                    kk = s[1]
+                    if isinstance(kk, SV):
+                        conds.append(kk.e == K["ERROR"])
+                    elif kk == K["ERROR"]:
+                        raise Violation("ERROR token in a tree without any syntax diagnostic")
+            if conds:
+                ex.prove(z3.Not(z3.Or(conds)), "ERROR token in a tree without any syntax diagnostic")
+        return len(steps)
+
+    def describe(self, ex, outcome, detail):
+        if outcome == "ok":
+            return ("ok", detail, ex.steps)
+        kit = self.fam.kit
+        model = ex.model() or {}
+        ks = [t if isinstance(t, int) else model.get(t.e.decl().name(), kit.K["IDENT"]) for t in self.toks]
+        js = [(model.get(f"joint{i // 64}", 0) >> (i % 64)) & 1 for i in range(len(ks))]
+        fn = detail["stack"][-1] if detail.get("stack") else "?"
+        site = f"{outcome}|{fn.split('::')[-1]}|{detail['msg']}"
+        kid = None
+        if outcome in ("panic", "stuck", "violation"):
+            kid = findings.match_known(ex, self.fam.known, site, PEnv(kit, self.toks).env())
+        return ("fail", outcome, site, ks, js, kid, detail.get("stack", [])[-5:])
+
+
+def skeleton_variants(kit, depth, modes):
+    """(tokens, i, mode) for every statement skeleton (first member of each class) and every position i"""
+    from . import skel
+    G = skel.spec()
+    seen = set(); out = []
+    for name, sk in G.statements(depth):
+        toks = []
+        for it in sk:
+            if isinstance(it, str):
+                toks.append(kit.K[it])
+            elif it[0] == "slot":
+                toks.append(kit.K[G.CLASSES[it[1]][0]])
+            elif it[0] == "joint":
+                toks += [kit.K[x] for x in it[1]]
+            elif it[0] == "binop":
+                toks.append(kit.K["PLUS"])
+            elif it[0] == "cmpassign":
+                toks += [kit.K["PLUS"], kit.K["EQ"]]
+        if len(toks) > 20:
+            continue
+        for mode in modes:
+            for i in range(0, len(toks) + (1 if mode != "subst" else 0)):
+                key = (tuple(toks[:i]),) if mode == "trunc" else (tuple(toks), i, mode)
+                if key not in seen:
+                    seen.add(key); out.append((tuple(toks), i, mode))
+    return out
+
+
+def run_prefixes(ctx, res, k, which=("panic", "stuck"), modes=None):
+    """returns fails dict like run_parser's; `which` selects the outcomes that belong to the calling property"""
+    kit = ParserKit()
+    if modes is None:
+        modes = ("trunc", "subst") if k <= 1 else ("trunc", "subst", "insert")
+    prefixes = skeleton_variants(kit, 1 if k <= 1 else 2, modes)
+    fails = {}
+    maxsteps = [0]
+
+    def on_result(idx, task, recs, left, stats, err):
+        if err:
+            res.inconclusive.append(err[:400])
+        if left:
+            res.inconclusive.append("prefix exploration not exhausted")
+        for r in recs:
+            if r[0] == "ok":
+                maxsteps[0] = max(maxsteps[0], r[2])
+            elif r[1] in which or r[1] == "unsupported":
+                d = fails.setdefault((r[2], r[5]), {"count": 0, "examples": [], "where": {"prefix"}})
+                d["count"] += 1
+                if len(d["examples"]) < 3:
+                    d["examples"].append(r)
+
+    def fam():
+        return PrefixFamily(ctx.known, ctx.seed, k)
+    st, errs = explore.explore_many(fam, prefixes, workers=ctx.workers, on_result=on_result, log=ctx.log)
+    res.merge_stats(st)
+    ctx.log(f"skeleton variants {modes}: {len(prefixes)} variants: {st.get('paths', 0)} paths ok={st.get('ok', 0)} panic={st.get('panic', 0)} "
+            f"stuck={st.get('stuck', 0)} violation={st.get('violation', 0)} unsupported={st.get('unsupported', 0)} wall={st.get('wall', 0):.1f}s")
+    res.bounds["skeleton_variants"] = len(prefixes)
+    return kit, fails
 
 
 def run_lexer(ctx, res):
@@ -303,6 +442,8 @@ def run(ctx):
     N = int(os.environ.get("VERIF_C01_N", N))
     NC = int(os.environ.get("VERIF_C01_NC", NC))
     run_parser(ctx, res, N, NC, POFF=() if ctx.quick() else (62, 63))
+    kitp, pf = run_prefixes(ctx, res, int(os.environ.get("VERIF_C01_K", 1 if ctx.quick() else 2)), modes=("trunc",) if ctx.quick() else None)
+    triage_failures(ctx, res, kitp, pf)
     run_lexer(ctx, res)
     res.exhaustive = not res.inconclusive
     res.stubs += ["Vec/slice/Option/Result/iterators/Cell/mem::replace (vf/models.py)", "format!/fmt::Arguments opaque",
